@@ -163,6 +163,10 @@ func runC06(w *mon.W) {
 				n = len(s)
 				w.Add("strings_with_tandem_runs", 1)
 			}
+			if i%8 == 2 || (i%8 >= 5 && r.Intn(3) == 0) {
+				s = caseEdges(r, s)
+				w.Add("strings_in_cloning_notation", 1)
+			}
 			tbl := codon.GetCodonTable(g.ID)
 			w.Begin(sid, s)
 			var got string
